@@ -250,9 +250,9 @@ def r5(c):
              '%r vs %r' % (q.sem(b, new[0].args[0]), q.sem(b, pa[0].args[0])), new[0].loc())
         s = q.sem(b, new[0].args[1])
         c.ob('arm/%s/iterator' % v, s.kind == 'call' and s.cs is pa[0] and s.checked, 'the iterator given to the handler is the checked result of parse_all', repr(s), new[0].loc())
-        r = q.sem(b, pa[0].args[0])
+        r = q.through_checks(P, b, pa[0].args[0])
         c.ob('arm/%s/range-parsed' % v, r.kind == 'call' and r.cs.callee == '<rodbus::types::AddressRange as rodbus::common::traits::Parse>::parse' and r.checked,
-             'the range is the checked result of AddressRange::parse on the request cursor', repr(r), pa[0].loc())
+             'the range is the checked result of AddressRange::parse on the request cursor (possibly through value-preserving limit checks)', repr(r), pa[0].loc())
     # write-single arms hand the parsed Indexed straight through
     for v in ('WriteSingleCoil', 'WriteSingleRegister'):
         region = set()
